@@ -29,6 +29,9 @@ Inf  == [t |-> "inf", v |-> 0]
 L(xs) == [t |-> "lst", v |-> xs]
 T(xs) == [t |-> "tup", v |-> xs]
 D(ps) == [t |-> "dct", v |-> ps]
+(* a whole-number float beyond the scaled 32-bit representation (k indexes a table kept by the binding: 3965164488755.0,    *)
+(* the largest finite double, -3121000059417.0): a whole number is its own rounding to 5 decimals, so its normal form is itself *)
+Big(k) == [t |-> "big", v |-> k]
 
 (* round half away is never exercised: the generator has no value ending in ...5 at the 6th decimal *)
 Round5(x) == IF x >= 0 THEN (x + 50) \div 100 ELSE -((-x + 50) \div 100)
@@ -47,6 +50,7 @@ Vals    == Scalars \cup Seqs \cup Dicts
 TextVals == {S("e\\n\"x"), Inf, NaN, T(<<I(1), I(2)>>), D(<<<<S("L1"), F(2500000)>>>>)}     \* {"L1": 0.25}: a plain dict that happens to look like the serialised form of a registered class     \* the binding turns the two characters backslash-n into a real newline followed by non-ASCII characters
 SmallVals == {I(7), F(1234567), None, L(<<I(1), F(1234567)>>), D(<<<<I(3), S("x")>>, <<S("y"), L(<<I(1)>>)>>>>)}
 MidVals == {I(0), F(25000000), F(1234567), F(30000000), S("e\\n\"x"), None, NaN, T(<<I(1), I(2)>>), L(<<L(<<I(1)>>), T(<<I(2)>>)>>), D(<<<<I(3), S("x")>>, <<S("y"), L(<<I(1)>>)>>>>)}
+BigVals == {Big(1), Big(2), Big(3), L(<<Big(1), F(1234567)>>)}
 Keys    == {S("a"), S("b"), I(5)}           \* I(5): a non-string field name
 
 (* a row: set of <<key, value>> with distinct keys *)
